@@ -364,6 +364,19 @@ def check_loops(ctx, long_polls=None):
                 if cl is not None:
                     ctx.ok(R6, "%s: counted loop on local _%d (%s by 1 per turn, constant start%s)" % (k, cl["counter"], cl["direction"], ", at most %s turns" % cl["bound"] if cl["bound"] is not None else ""))
                     continue
+                # `while reader.read_line(&mut buf)? > 0 { .. }`: the hand-written form of `for line in reader.lines()` — driven by the same
+                # reader, left when it reports end of input (a test on the call's result has an edge out of the loop)
+                sset_ = set(scc)
+                rd_ = [c_ for c_ in b.calls if c_.bb in sset_ and (c_.name or "").rsplit("::", 1)[-1] in ("read_line", "read_until", "read", "read_buf") and ("io::" in (c_.fn or c_.name or ""))]
+                reader_driven = False
+                for c_ in rd_:
+                    for i_ in sset_:
+                        t_ = b.term(i_)
+                        if t_["t"] == "switch" and any(v_ not in sset_ for v_ in b.succ[i_]) and any(x_.bb == c_.bb for x_ in origins(b, t_["discr"]).calls):
+                            reader_driven = True
+                if reader_driven:
+                    ctx.ok(R6, "%s: loop driven by a reader (read_line/read until end of input), like `lines()`" % k)
+                    continue
                 ctx.fail(R6, where(b, scc[0]), "unbounded `loop`/`while` in %s (not iterator-driven, not an await loop, not in the frozen table)" % k,
                          [k, "unbounded-loop"])
                 continue
